@@ -32,6 +32,7 @@ func checkC02(c *Ctx, r *Report) {
 	checkDMFrame(c, r)
 	checkDMSweep(c, r)
 	checkDMDeinterleave(c, r)
+	checkDecodePipelines(c, r)
 	// codeword-level agreement of the mode encoders with the bit-stream parser
 	checkDMAscii(c, r)
 	checkDMLatches(c, r)
@@ -42,7 +43,9 @@ func checkC02(c *Ctx, r *Report) {
 	checkDMMacros(c, r)
 	checkDMX12EOD(c, r)
 	checkDMEdifactEOD(c, r)
+	checkDMC40EOD(c, r)
 	checkDMCharset(c, r)
+	checkDMNativeChars(c, r)
 	// the statement quantifies over the requested pixel size: the rendering terms (same obligations as under C14)
 	declareRenderRules(r, 1)
 	renderDM(c, r)
@@ -190,9 +193,10 @@ func emptyBytes() *Val { return &Val{K: VList, Local: true} }
 
 // charClasses sorts the per-character outcomes of a write/read fold into three obligations, so that a finding about
 // the text form of upper-shifted characters does not hide anything else:
-//   <key>/ascii            characters 0x00..0x7F come back as themselves
-//   <key>/upper-shift value   characters 0x80..0xFF come back with the right character value (as text, or as a raw byte)
-//   <key>/upper-shift text    ... and in the text buffer's own form (UTF-8), so that string(result) is the character
+//
+//	<key>/ascii            characters 0x00..0x7F come back as themselves
+//	<key>/upper-shift value   characters 0x80..0xFF come back with the right character value (as text, or as a raw byte)
+//	<key>/upper-shift text    ... and in the text buffer's own form (UTF-8), so that string(result) is the character
 type charClasses struct {
 	ascii, value, text string
 }
@@ -243,7 +247,10 @@ func checkDMAscii(c *Ctx, r *Report) {
 			}
 			return true
 		})
-		cObj := localByName(p, fd, "c")
+		var cObj types.Object // the current character: what the extended-ASCII test looks at
+		if tail != nil {
+			cObj = identObj(p, ast.Unparen(tail.Cond).(*ast.CallExpr).Args[0])
+		}
 		bad := ""
 		cls := &charClasses{}
 		if tail == nil || cObj == nil {
@@ -487,6 +494,38 @@ func checkDMLatches(c *Ctx, r *Report) {
 // S-DMSHIFT: C40 and Text value sequences
 // ---------------------------------------------------------------------------------------------------------------
 
+// dmSegmentVars finds, by their roles, the state variables of a C40 / Text / X12 segment decoder: the three-value
+// buffer (the slice made with make([]int, 3)), the upper-shift flag (a local initialised with false) and the shift
+// state (the tag of the switch inside the value loop).
+func dmSegmentVars(p *packages.Package, fd *ast.FuncDecl) (values, upper, shift types.Object) {
+	for _, st := range fd.Body.List {
+		as, ok := st.(*ast.AssignStmt)
+		if !ok || as.Tok != token.DEFINE || len(as.Lhs) != 1 || len(as.Rhs) != 1 {
+			continue
+		}
+		o := p.TypesInfo.Defs[as.Lhs[0].(*ast.Ident)]
+		switch rhs := ast.Unparen(as.Rhs[0]).(type) {
+		case *ast.CallExpr:
+			if b, isB := typeutil.Callee(p.TypesInfo, rhs).(*types.Builtin); isB && b.Name() == "make" && values == nil {
+				if sl, isS := p.TypesInfo.TypeOf(rhs).Underlying().(*types.Slice); isS && isIntT(sl.Elem()) {
+					values = o
+				}
+			}
+		case *ast.Ident:
+			if c, isC := p.TypesInfo.Uses[rhs].(*types.Const); isC && c.Val().String() == "false" && upper == nil {
+				upper = o
+			}
+		}
+	}
+	ast.Inspect(fd.Body, func(n ast.Node) bool {
+		if sw, ok := n.(*ast.SwitchStmt); ok && sw.Tag != nil && shift == nil {
+			shift = identObj(p, sw.Tag)
+		}
+		return true
+	})
+	return
+}
+
 // foldShiftValues runs the per-value switch of decodeC40Segment / decodeTextSegment over a value sequence.
 func foldShiftValues(c *Ctx, fn string, values []int64) (out []int64, shift int64, upper bool, err string) {
 	fd, p := c.funcDeclOf("datamatrix/decoder", fn)
@@ -501,7 +540,8 @@ func foldShiftValues(c *Ctx, fn string, values []int64) (out []int64, shift int6
 		}
 		return true
 	})
-	shiftObj, upperObj, resObj := localByName(p, fd, "shift"), localByName(p, fd, "upperShift"), paramObjs(p, fd)[1]
+	valuesObj, upperObj, shiftObj := dmSegmentVars(p, fd)
+	resObj := paramObjs(p, fd)[1]
 	if inner == nil || shiftObj == nil || upperObj == nil {
 		return nil, 0, false, "?value loop / shift state not found"
 	}
@@ -509,7 +549,7 @@ func foldShiftValues(c *Ctx, fn string, values []int64) (out []int64, shift int6
 	for _, v := range values {
 		val := v
 		h := &rpf{idxHook: func(rr *rpf, ix *ast.IndexExpr) (*Val, bool) {
-			if id, ok := ix.X.(*ast.Ident); ok && id.Name == "cValues" {
+			if valuesObj != nil && identObj(p, ix.X) == valuesObj {
 				return vint(val), true
 			}
 			return nil, false
@@ -629,8 +669,9 @@ func checkDMX12Edifact(c *Ctx, r *Report) {
 			resObj := paramObjs(dp, dfd)[1]
 			env := map[types.Object]*Val{resObj: emptyBytes()}
 			val := vals[0]
+			x12Values, _, _ := dmSegmentVars(dp, dfd)
 			h := &rpf{idxHook: func(rr *rpf, ix *ast.IndexExpr) (*Val, bool) {
-				if id, ok := ix.X.(*ast.Ident); ok && id.Name == "cValues" {
+				if x12Values != nil && identObj(dp, ix.X) == x12Values {
 					return vint(val), true
 				}
 				return nil, false
@@ -789,7 +830,6 @@ func checkDMTriples(c *Ctx, r *Report) {
 	r.Extra("dm_triples_folded", n)
 	reportFold(r, c, "S-DMTRIPLE", key, efd.Pos(), bad)
 }
-
 
 // ---------------------------------------------------------------------------------------------------------------
 // S-DMB256
@@ -1603,4 +1643,249 @@ func checkDMCharset(c *Ctx, r *Report) {
 		}
 	}
 	r.Check(bad == "", "M-DMCHARSET", key, c.pos(f.Pos()), bad)
+}
+
+// M-DMNATIVE: a character outside the mode's set must not make the whole encoding fail
+func checkDMNativeChars(c *Ctx, r *Report) {
+	r.Rule("M-DMNATIVE", "the X12 and EDIFACT mode encoders can only write their own character sets; look-ahead may put them in charge although a later character of the current triplet / quadruple is outside the set. Such a character must be tested for before it is handed to x12EncodeChar / edifactEncodeChar (and the mode left), otherwise the character encoder's error becomes the result of the whole encoding and a text that fits is refused", 2)
+	for _, t := range []struct{ recv, charFn string }{{"X12Encoder", "x12EncodeChar"}, {"EdifactEncoder", "edifactEncodeChar"}} {
+		f := c.ssaFunc("datamatrix/encoder", t.recv+".encode")
+		key := "datamatrix/encoder." + t.recv + ".encode"
+		if f == nil {
+			r.AnchorLost("M-DMNATIVE", key, "method not found")
+			continue
+		}
+		r.Analysed(key)
+		bad := ""
+		for _, b := range f.Blocks {
+			for _, in := range b.Instrs {
+				call, ok := in.(*ssa.Call)
+				if !ok {
+					continue
+				}
+				g := call.Call.StaticCallee()
+				if g == nil || g.Name() != t.charFn {
+					continue
+				}
+				// is the character tested by a native-set predicate on a dominating branch?
+				ch := call.Call.Args[0]
+				guarded := false
+				for _, blk := range f.Blocks {
+					if len(blk.Instrs) == 0 {
+						continue
+					}
+					iff, ok := blk.Instrs[len(blk.Instrs)-1].(*ssa.If)
+					if !ok {
+						continue
+					}
+					cond := iff.Cond
+					if u, isU := cond.(*ssa.UnOp); isU && u.Op == token.NOT {
+						cond = u.X
+					}
+					pc, ok := cond.(*ssa.Call)
+					if !ok || len(pc.Call.Args) != 1 || pc.Call.Args[0] != ch {
+						continue
+					}
+					if pg := pc.Call.StaticCallee(); pg == nil || !strings.Contains(strings.ToLower(pg.Name()), "native") {
+						continue
+					}
+					for _, succ := range blk.Succs {
+						if len(succ.Preds) == 1 && (succ == b || succ.Dominates(b)) {
+							guarded = true
+						}
+					}
+				}
+				if guarded {
+					continue
+				}
+				// does the call's error reach a return of encode?
+				for _, ref := range *call.Referrers() {
+					ex, ok := ref.(*ssa.Extract)
+					if !ok || ex.Index != 1 {
+						continue
+					}
+					for _, r2 := range *ex.Referrers() {
+						if _, isRet := r2.(*ssa.Return); isRet {
+							bad = fmt.Sprintf("the error of %s for a character outside the set is returned as the result of the encoding (%s); the character is not tested before", t.charFn, c.pos(call.Pos()))
+						}
+					}
+				}
+			}
+		}
+		r.Check(bad == "", "M-DMNATIVE", key, c.pos(f.Pos()), bad)
+	}
+}
+
+// S-DMC40EOD: C40 / Text end of data against the parser's exit tests
+func checkDMC40EOD(c *Ctx, r *Report) {
+	r.Rule("S-DMC40EOD", "c40HandleEOD (shared by the C40 and Text encoders), folded on a model of the encoder context (real symbol capacities, cursor, codeword count) over the states its callers produce (buffered values 0..5 - a mode switch only on a triplet boundary; at the end of the text two pending values only with exactly two codewords free, one only with exactly one -, codewords written, characters to follow): whatever it leaves the parser can follow - with no unlatch written, at most one codeword of the symbol finally needed remains after the triplets (the parser leaves C40 mode by itself at the end of the symbol or with exactly one codeword left; a final unlatch codeword there is tolerated in ASCII mode); every buffered value is written or handed back; and no unlatch is written when the triplets fill the needed symbol exactly and nothing follows (it would force a larger symbol, or none when the largest permitted is already full)", 1)
+	fd, p := c.funcDeclOf("datamatrix/encoder", "c40HandleEOD")
+	key := "datamatrix/encoder.c40HandleEOD"
+	if fd == nil {
+		r.AnchorLost("S-DMC40EOD", key, "function not found")
+		return
+	}
+	r.Analysed(key)
+	unlatch, _ := constValIn(c, "datamatrix/encoder", "HighLevelEncoder_C40_UNLATCH")
+	caps := []int64{3, 5, 8, 12, 18, 22, 30, 36, 44}
+	capFor := func(n int64) int64 {
+		for _, cp := range caps {
+			if cp >= n {
+				return cp
+			}
+		}
+		return -1
+	}
+	bad := ""
+	states := 0
+	for _, cw := range []int64{1, 2, 3, 4, 5, 6, 7, 8, 9, 10, 11, 12, 16, 17, 18, 20, 21, 22} {
+		for bufLen := int64(0); bufLen <= 5 && bad == ""; bufLen++ {
+			for rem := int64(0); rem <= 2 && bad == ""; rem++ {
+				// states the callers produce (C40Encoder.encode): a mode switch happens on triplet boundaries only, and at the
+				// end of the text its backtracking leaves two pending values only with exactly two codewords free and one
+				// pending value only with exactly one
+				{
+					rest := bufLen % 3
+					cur := cw + bufLen/3*2
+					capNow := capFor(cur)
+					if capNow < 0 || (rem > 0 && rest != 0) || (rest == 2 && capNow-cur != 2) || (rest == 1 && capNow-cur != 1) {
+						continue
+					}
+				}
+				states++
+				L := int64(30)
+				pos := L - rem
+				curPos := pos
+				var written []int64
+				symCap := int64(-1)
+				h := &rpf{unroll: 100}
+				h.selHook = func(rr *rpf, sel *ast.SelectorExpr) (*Val, bool) {
+					if sel.Sel.Name == "pos" {
+						return vint(curPos), true
+					}
+					return nil, false
+				}
+				h.stHook = func(rr *rpf, lhs ast.Expr, v *Val) bool {
+					if sel, ok := lhs.(*ast.SelectorExpr); ok && sel.Sel.Name == "pos" && v.K == VInt {
+						curPos = v.I
+						return true
+					}
+					return false
+				}
+				h.callHook = func(rr *rpf, call *ast.CallExpr, callee types.Object) (*Val, bool) {
+					fn, ok := callee.(*types.Func)
+					if !ok {
+						return nil, false
+					}
+					total := cw + int64(len(written))
+					switch fn.Name() {
+					case "UpdateSymbolInfo":
+						if symCap < total {
+							symCap = capFor(total)
+						}
+						return &Val{K: VNil}, true
+					case "UpdateSymbolInfoByLength":
+						n := rr.expr(call.Args[0])
+						if n.K != VInt {
+							rpfFail("UpdateSymbolInfoByLength with a non-constant length")
+						}
+						if symCap < n.I {
+							symCap = capFor(n.I)
+						}
+						if symCap < 0 {
+							return vstr("error"), true
+						}
+						return &Val{K: VNil}, true
+					case "GetSymbolInfo":
+						return &Val{K: VStruct, Fields: map[string]*Val{}}, true
+					case "GetDataCapacity":
+						if symCap < 0 {
+							rpfFail("symbol info read while unset")
+						}
+						return vint(symCap), true
+					case "GetCodewordCount":
+						return vint(total), true
+					case "GetRemainingCharacters":
+						return vint(L - curPos), true
+					case "HasMoreCharacters":
+						return vbool(curPos < L), true
+					case "SignalEncoderChange":
+						return &Val{K: VNil}, true
+					case "WriteCodeword":
+						v := rr.expr(call.Args[0])
+						if v.K != VInt {
+							rpfFail("WriteCodeword of a non-constant")
+						}
+						written = append(written, v.I)
+						return &Val{K: VNil}, true
+					case "WriteCodewords":
+						v := rr.expr(call.Args[0])
+						xs, ok := listInts(v)
+						if !ok {
+							rpfFail("WriteCodewords of a non-constant list")
+						}
+						written = append(written, xs...)
+						return &Val{K: VNil}, true
+					}
+					return errCtorHook(rr, call, callee)
+				}
+				buf := &Val{K: VList}
+				for i := int64(0); i < bufLen; i++ {
+					buf.L = append(buf.L, &Val{K: VInt, I: 14 + i, T: types.Typ[types.Byte]}) // C40 values of 'A', 'B', ...
+				}
+				res, err := c.rpfCall(fd, p, []*Val{{K: VNil}, buf}, h)
+				if err != nil {
+					bad = "?" + err.Error()
+					break
+				}
+				if len(res) != 1 || res[0].K != VNil {
+					continue // an error is never a wrong symbol
+				}
+				where := fmt.Sprintf("%d codewords written, %d C40 values buffered, %d character(s) to follow", cw, bufLen, rem)
+				wroteUnlatch := len(written) > 0 && written[len(written)-1] == unlatch
+				pairs := int64(len(written))
+				if wroteUnlatch {
+					pairs--
+				}
+				if pairs%2 != 0 {
+					bad = where + ": an odd number of codewords is written for the triplets"
+					break
+				}
+				handedBack := pos - curPos // characters returned to the cursor (re-encoded in ASCII)
+				if handedBack < 0 || handedBack > 1 {
+					bad = fmt.Sprintf("%s: the cursor moves from %d to %d", where, pos, curPos)
+					break
+				}
+				// values accounted for: 3 per pair (a pad value may complete the last triplet), plus a handed-back character
+				if pairs/2*3 < bufLen-handedBack {
+					bad = fmt.Sprintf("%s: %d buffered values, only %d written and %d handed back", where, bufLen, pairs/2*3, handedBack)
+					break
+				}
+				afterPairs := cw + pairs
+				need := L - curPos // ASCII codewords for what follows (one per character here)
+				if wroteUnlatch {
+					finalCap := capFor(afterPairs + 1 + need)
+					if finalCap < 0 {
+						continue
+					}
+					// (an unlatch in the very last codeword is read in ASCII mode, where the parser tolerates a final 254)
+					// was it needed? without it the symbol for afterPairs + need codewords:
+					if without := capFor(afterPairs); need == 0 && without == afterPairs && without < finalCap {
+						bad = fmt.Sprintf("%s: the triplets end the message and fill the %d-codeword symbol exactly, where the parser leaves C40 mode by itself; the unlatch that is written forces the %d-codeword symbol (or none, when the smaller one is the largest permitted)", where, without, finalCap)
+						break
+					}
+					continue
+				}
+				finalCap := capFor(afterPairs + need)
+				if finalCap < 0 {
+					continue
+				}
+				if finalCap-afterPairs > 1 {
+					bad = fmt.Sprintf("%s: no unlatch is written although the symbol finally needed (%d data codewords) leaves %d codewords after the triplets - the parser stays in C40 mode and reads what follows as C40 pairs", where, finalCap, finalCap-afterPairs)
+				}
+			}
+		}
+	}
+	r.Extra("c40_eod_states", states)
+	reportFold(r, c, "S-DMC40EOD", key, fd.Pos(), bad)
 }
